@@ -39,7 +39,7 @@ var originPool = []string{
 
 var probePatPool = []string{
 	"/probe", "/probe/", "/probe/sub/", "/probe/sub/leaf", "/", "/config/special", "/config/sub/", "/id/x/", "/stop/",
-	"/metrics", "/load", "/adapt", "/pki/", "/reverse_proxy/upstreams", "/debug/pprof/extra", "/idx",
+	"/metrics", "/loadx", "/adapt/", "/pki/sub/", "/reverse_proxy/", "/debug/pprof/extra", "/idx",
 }
 
 var idxKeyPool = []string{"app", "item0", "sub", "a", "b", "c", "loop", "x", "my.id", "stop"}
@@ -58,7 +58,7 @@ var pathPool = []string{
 	"/stop", "/stop/", "/debug/vars", "/debug/pprof/", "/debug/pprof/cmdline", "/debug/pprof/symbol", "/debug/pprof/profile",
 	"/debug/pprof/trace", "/debug/pprof", "/debug", "/debug/pprof/goroutine", "/", "/nope", "/config/../stop", "//config/", "/config//apps", "/./config/",
 	"/probe", "/probe/", "/probe/x", "/probe/sub", "/probe/sub/", "/probe/sub/leaf", "/probe/sub/leaf/deeper", "/config/special", "/config/sub/x",
-	"/metrics", "/load", "/pki", "/pki/ca/local", "/idx", "/configx", "/stopx",
+	"/metrics", "/load", "/adapt", "/pki", "/pki/ca/other", "/pki/x", "/reverse_proxy/upstreams", "/reverse_proxy", "/idx", "/configx", "/stopx",
 }
 
 var methodPool = []string{"GET", "GET", "GET", "GET", "POST", "PUT", "PATCH", "DELETE", "OPTIONS", "OPTIONS", "HEAD", "CONNECT", "get", "TRACE"}
@@ -383,6 +383,9 @@ func (p *prop) Generate(rng *core.Rand, tier string, emit func(string)) {
 		emit(p.genCase(rng, false))
 		if i%50 == 0 && nload > 0 {
 			emit(p.genCase(rng, true))
+		}
+		if i%20 == 0 {
+			emit(genCf(rng))
 		}
 	}
 }
